@@ -53,7 +53,7 @@ REQUIRED = ['request_completion', 'status_set', 'gateway_protocol',
             'preemptions']
 SHARD_TIMEOUT = {'quick': 500, 'thorough': 3400}
 
-METHODS = ['GET', 'POST', 'OPTIONS', 'PUT', 'DELETE']
+METHODS = ['GET', 'POST', 'OPTIONS', 'PUT', 'DELETE', 'HEAD']
 STATES = ['absent', 'live-poll', 'live', 'upgraded', 'mid', 'closed',
           'unknown', 'rejected', 'gone']
 BODIES = ['valid', 'empty', 'baddigit', 'badb64', 'deepjson', 'p17', 'p1000',
@@ -214,7 +214,8 @@ ODD = ['bad-utf8-header', 'bad-utf8-query', 'dup-header', 'chunked-body',
        'no-query', 'huge-header', 'odd-accept-encoding', 'lowercase-method',
        'no-host', 'origin-and-cors-request-headers', 'encoded-path',
        'client-gone-before-body', 'upgrade-header-without-connection',
-       'upgrade-header-connection-close', 'non-latin1-reflected-header']
+       'upgrade-header-connection-close', 'non-latin1-reflected-header',
+       'body-on-bodyless-method']
 
 
 def run_odd(rec, case):
@@ -322,6 +323,10 @@ def run_odd(rec, case):
             else:
                 kw['scope_extra_headers'] = [
                     (b'access-control-request-headers', raw)]
+        elif odd == 'body-on-bodyless-method':
+            # a request body (with its Content-Length) on GET / OPTIONS /
+            # DELETE / HEAD: legal HTTP, simply not expected
+            body = b'4surprise\x1e1'
         elif odd == 'encoded-path':
             kw['path'] = '/engine.io/%2e%2e/x'
         if srv == 'H':
